@@ -106,6 +106,7 @@ impl ZipFileData {
 impl<'a> ZipFile<'a> {
 //@use zipfile_get_reader
 //@use zipfile_get_raw_reader
+//@use zipfile_encrypted
 //@use zipfile_compressed_size
 //@use zipfile_size
 //@use zipfile_last_modified
